@@ -54,6 +54,7 @@ type sSeg struct {
 	brStart         uint64
 	hasBR           bool
 	brExplicitStart bool
+	gapTag          bool          // listed with EXT-X-GAP
 	availAt         time.Duration // live: when the segment becomes available
 	frags           int
 }
@@ -276,6 +277,9 @@ func (st *sStream) playlist(first, last int, endlist bool, skipTo int) []byte {
 		sg := st.segs[i]
 		if sg.pdt != nil {
 			fmt.Fprintf(&b, "#EXT-X-PROGRAM-DATE-TIME:%s\n", sg.pdt.UTC().Format("2006-01-02T15:04:05.000Z07:00"))
+		}
+		if sg.gapTag {
+			b.WriteString("#EXT-X-GAP\n")
 		}
 		fmt.Fprintf(&b, "#EXTINF:%s,\n", fmtDur(sg.dur))
 		if sg.hasBR {
